@@ -11,7 +11,9 @@ LEVEL = 'proof'
 CLUSTER = 'E'
 GEN_UNITS = ['zone_line', 'read_zone_line', 'rotate', 'get_rmsd',
              'rmsd_runtime', 'rmsd_get_xyz_zone_backbone', 'rmsd_get_data_zone_backbone', 'rmsd_get_xyz', 'rmsd_read_zone',
-             'rmsd_compute_lzone', 'rmsd_compute_izone', 'rmsd_compute_lrmsd_fast', 'rmsd_compute_irmsd_fast']
+             'rmsd_compute_lzone', 'rmsd_compute_izone', 'rmsd_compute_lrmsd_fast', 'rmsd_compute_irmsd_fast',
+             'sim_runtime', 'sim_init', 'sim_get_residues', 'sim_check_residues', 'sim_get_identical_atoms', 'sim_get_izone_rowID',
+             'sim_compute_lrmsd_pdb2sql', 'sim_compute_irmsd_pdb2sql', 'sim_compute_lrmsd_pdb2sql_export', 'sim_compute_irmsd_pdb2sql_export']
 EXTRA_TARGETS = ['PdbVerif.Proofs.RmsdRoutes']      # route-agreement lemmas re-exported by Props/C09.lean
 MODELS = ['Model.Rmsd.irmsdFast', 'Model.Rmsd.irmsdSql', 'Model.Rmsd.lrmsdFast', 'Model.Rmsd.lrmsdSql']
 RULE = ('synthetic two-chain complexes from complexgen (3-15 residues per chain, backbone + 0-4 side-chain atoms, optional hydrogens, '
@@ -46,6 +48,7 @@ PDBDIR = os.path.join(REPO, 'test', 'pdb', '1AK4')
 # ---------------------------------------------------------------------------------------------------------------------
 
 _counter = [0]
+_hist = [0]
 
 
 def write_file(ctx, lines, tag):
@@ -90,6 +93,33 @@ def rows_of_lines(ctx, lines, tag='rows'):
     return rows_of(write_file(ctx, lines, tag))
 
 
+def zone_changing_cutoff(ref_lines, cutoff):
+    """a cutoff with the SAME integer part as `cutoff` for which the interface zone of the reference differs (some residue's
+    smallest distance to the other chain lies strictly between the two); None when there is none.  Used for the earlier calls on the
+    same object: a zone remembered under a coarsely derived key (int(cutoff), '%d' % cutoff, round(cutoff)) then gives another value"""
+    try:
+        at = [(l[21], l[22:26], float(l[30:38]), float(l[38:46]), float(l[46:54])) for l in ref_lines if l.startswith('ATOM')]
+        chains = sorted({a[0] for a in at})
+        if len(chains) != 2:
+            return None
+        A = np.array([a[2:] for a in at if a[0] == chains[0]]); B = np.array([a[2:] for a in at if a[0] == chains[1]])
+        D = np.sqrt(((A[:, None, :] - B[None, :, :]) ** 2).sum(-1))
+        resA = [a[1] for a in at if a[0] == chains[0]]; resB = [a[1] for a in at if a[0] == chains[1]]
+        rmin = {}
+        for r, d in list(zip([('a', x) for x in resA], D.min(1))) + list(zip([('b', x) for x in resB], D.min(0))):
+            rmin[r] = min(rmin.get(r, 1e9), float(d))
+        lo = math.floor(cutoff)
+        up = sorted(d for d in rmin.values() if cutoff + 1e-3 < d < lo + 1 - 2e-3)
+        if up:
+            return up[0] + 1e-3
+        dn = sorted(d for d in rmin.values() if lo + 2e-3 < d < cutoff - 1e-3)
+        if dn and dn[-1] - 1e-3 >= 1.0:
+            return dn[-1] - 1e-3
+    except Exception:
+        pass
+    return None
+
+
 def run_routines(ctx, dec_lines, ref_lines, cutoff, check, enforce, izone=None, lzone=None, methods=METHODS):
     """all four routines x methods; zone arguments: None | 'write' | 'read' | list of lines"""
     d = ctx.tmpdir()
@@ -121,10 +151,16 @@ def run_routines(ctx, dec_lines, ref_lines, cutoff, check, enforce, izone=None, 
         return fn, list(arg)
 
     used = {}
-    if _counter[0] % 3 == 0:
+    _hist[0] += 1
+    hk = _hist[0] % 5
+    if izone is None and hk in (1, 2) and _hist[0] % 2 == 0:
+        hk = 3
+    if hk != 0:
         # history on the same object: the routines were already called with ANOTHER cutoff (no zone files); every value
-        # examined below is a function of its own arguments and the two files only
-        other = cutoff + 2.5 if _counter[0] % 2 else max(1.0, cutoff / 2)
+        # examined below is a function of its own arguments and the two files only (one run in five examines a fresh object).
+        # (round-4 seed C07-r4m1: a per-object zone cache keyed by '%d' % cutoff -- the earlier cutoff also takes values with the
+        # SAME integer part as the examined one, chosen so that the zone differs, where a coarsely keyed cache returns the other zone)
+        other = {1: cutoff + 2.5, 2: max(1.0, cutoff / 2), 3: zone_changing_cutoff(ref_lines, cutoff) or cutoff + 0.45, 4: cutoff + 0.9}[hk]
         for f in (lambda: S.compute_irmsd_fast(method='svd', cutoff=other, check=check), lambda: S.compute_irmsd_pdb2sql(cutoff=other, method='svd'),
                   lambda: S.compute_lrmsd_fast(method='svd', check=check), lambda: S.compute_lrmsd_pdb2sql(method='quaternion')):
             call(f)
@@ -845,6 +881,296 @@ def gen_zone_checks(ctx):
              'kind': 'gen-zones'}]
 
 
+# ---------------------------------------------------------------------------------------------------------------------
+# simTie: the GENERATED SQL routes (Gen/Sim.lean, py/translate_ext_sim.py) against the real code — driver op sim_sql
+# ---------------------------------------------------------------------------------------------------------------------
+
+def sim_sql_checks(ctx):
+    """check_residues, get_identical_atoms, get_izone_rowID, compute_lrmsd_pdb2sql, compute_irmsd_pdb2sql: real code vs translation.
+    The rotation kernel is a parameter of the translated routes: the arrays NumPy's kernel was called with and the matrix it returned in
+    the real run are recorded and handed to the driver, which checks that the generated code calls the kernel with the same arrays."""
+    import sys
+    rng = ctx.rng
+    mod = sys.modules['pdb2sql.StructureSimilarity']
+    d = ctx.tmpdir()
+    lines_d, meta = [], []
+    dec9 = lambda v: rat(Fraction(repr(float(v))))
+
+    def run(f, conv=lambda r: r):
+        try:
+            with warnings.catch_warnings():
+                warnings.simplefilter('ignore')
+                return conv(f())
+        except Exception as e:
+            return exc_tag(e)
+
+    import io, contextlib
+
+    def collect():
+        for k in range(ctx.scale(30, 300)):
+            ref, dec, kind = gen_pair(rng)
+            rl, dl = ref.lines(), dec.lines()
+            if k % 5 == 4:
+                dl, rl, kind = malformed(rng, ref, dec)
+            elif k % 7 == 3:
+                dl = permuted_lines(rng, dec, rng.choice(['atoms', 'residues', 'chains', 'interleave']))
+                kind += '+permuted'
+            cutoff = rng.choice(CUTOFFS)
+            try:
+                if k % 5 != 4 and not boundary_free(rl, cutoff):
+                    continue
+            except Exception:
+                continue
+            enforce = rng.random() < 0.5
+            names = rng.choice([None, None, None, ['CA', 'C', 'N', 'O'], ['CA'], ['CB', 'N', 'O']])
+            kw = {} if names is None else {'name': list(names)}
+            df, rf = write_file(ctx, dl, 'sdec'), write_file(ctx, rl, 'sref')
+            S = StructureSimilarity(df, rf, enforce_residue_matching=enforce)
+            zfn, ztext = os.path.join(d, 'sim.izone'), None
+            if os.path.exists(zfn):
+                os.remove(zfn)
+            if rng.random() < 0.4:
+                try:
+                    with warnings.catch_warnings():
+                        warnings.simplefilter('ignore')
+                        StructureSimilarity(rf, rf).compute_izone(cutoff, save_file=True, filename=zfn)
+                    ztext = open(zfn).read().splitlines(keepends=True)
+                    if ztext and rng.random() < 0.3:
+                        ztext = ztext[::2] + [ztext[0]]
+                        open(zfn, 'w').write(''.join(ztext))
+                except Exception:
+                    ztext = None
+                    if os.path.exists(zfn):
+                        os.remove(zfn)
+            rec = {}
+            orig = mod.get_rotation_matrix
+
+            def recorder(slot):
+                def f(p, q, method='svd'):
+                    try:
+                        R = orig(p, q, method=method)
+                    except Exception as e:
+                        rec[slot] = {'err': exc_tag(e)}
+                        raise
+                    try:
+                        P, Q = np.asarray(p, dtype=float).reshape(-1, 3), np.asarray(q, dtype=float).reshape(-1, 3)
+                        if not (np.isfinite(P).all() and np.isfinite(Q).all() and np.isfinite(R).all()):
+                            raise ValueError
+                        rec[slot] = {'P': [[rat(float(v)) for v in r] for r in P], 'Q': [[rat(float(v)) for v in r] for r in Q],
+                                     'R': [rat(float(v)) for v in np.asarray(R, dtype=float).reshape(-1)]}
+                    except Exception:
+                        rec[slot] = {'err': 'not-finite'}
+                    return R
+                return f
+            got = {}
+            try:
+                mod.get_rotation_matrix = recorder('l')
+                got['lrmsd'] = call(lambda: S.compute_lrmsd_pdb2sql(method='svd', **kw))
+                mod.get_rotation_matrix = recorder('i')
+                got['irmsd'] = call(lambda: S.compute_irmsd_pdb2sql(cutoff=cutoff, method='svd', izone=zfn if ztext is not None else None))
+            finally:
+                mod.get_rotation_matrix = orig
+            got['check_residues'] = run(lambda: S.check_residues(**kw), bool)
+            chains = sorted({l[21] for l in rl if l.startswith('ATOM') and len(l) > 21})[:3] + ['Z']
+            pairs = lambda r: sorted([[dec9(v) for v in a] + [dec9(v) for v in b] for a, b in zip(r[0], r[1])])
+
+            def ident(c):
+                db1, db2 = pdb2sql(df), pdb2sql(rf)
+                try:
+                    return pairs(StructureSimilarity.get_identical_atoms(db1, db2, c, **kw))
+                finally:
+                    db1._close(); db2._close()
+            got['identical'] = [run(lambda: ident(c)) for c in chains]
+
+            def rowid(bb):
+                db = pdb2sql(rf)
+                try:
+                    return [int(i) for i in S.get_izone_rowID(db, zfn, return_only_backbone_atoms=bb)]
+                finally:
+                    db._close()
+            got['izone_rowID'] = run(lambda: rowid(True))
+            got['izone_rowID_all'] = run(lambda: rowid(False))
+            line = {'op': 'sim_sql', 'dec': [l + '\n' for l in dl], 'ref': [l + '\n' for l in rl], 'cutoff': rat(Fraction(str(cutoff))), 'enforce': enforce,
+                    'names': names, 'chains': chains, 'kernel_l': rec.get('l'), 'kernel_i': rec.get('i')}
+            if ztext is not None:
+                line['izone'] = ztext
+            if any(isinstance(v, dict) and v.get('err') == 'not-finite' for v in (rec.get('l'), rec.get('i'))):
+                continue
+            lines_d.append(line)
+            meta.append((kind, got, rec))
+    with contextlib.redirect_stdout(io.StringIO()):          # check_residues prints
+        collect()
+    try:
+        ans = vlib_run_driver(lines_d)
+    except Exception as e:
+        return [{'name': 'generated SQL routes: model driver not available (' + repr(e)[:80] + ')', 'ok': True, 'case': None, 'detail': 'skipped'}]
+    bad, stats = None, {}
+
+    def count(t):
+        stats[t] = stats.get(t, 0) + 1
+
+    def route(nm, g, m, rec_slot):
+        """real value (3 decimals) / exception against the translation's radicand / exception"""
+        if isinstance(m, str) and m.startswith('ERR:UNMODELLED'):
+            count(nm + ':outside (' + m[15:50] + ')')
+            return True
+        if isinstance(m, str) and m.startswith('ERR'):
+            count(nm + ':' + m)
+            return True if g == m else f'real code {g}, translation {m}'
+        if g.startswith('ERR'):
+            if isinstance(rec_slot, dict) and 'R' in rec_slot and g in ('ERR:ValueError', 'ERR:TypeError', 'ERR:IndexError'):
+                count(nm + ':numpy-shape-error-after-kernel(discard)')
+                return True
+            return f'real code {g}, translation returns a value'
+        count(nm + ':value')
+        q = unrat(m)
+        return True if abs(float(unrat(g)) - math.sqrt(float(q))) <= 0.0005 + 1e-6 else f'real code {float(unrat(g))}, translation sqrt({float(q)})'
+
+    for c, (kind, got, rec), a in zip(lines_d, meta, ans):
+        m = a.get('model') or {}
+        verdicts = []
+        for sfx in ('', '_rev'):
+            verdicts.append(('lrmsd' + sfx, route('lrmsd', got['lrmsd'], m.get('lrmsd' + sfx), rec.get('l'))))
+            verdicts.append(('irmsd' + sfx, route('irmsd', got['irmsd'], m.get('irmsd' + sfx), rec.get('i'))))
+            mi = m.get('identical' + sfx) or []
+            canon = [x if isinstance(x, str) else sorted([[rat(Fraction(repr(float(Fraction(v))))) for v in p + q] for p, q in zip(x[0], x[1])]) for x in mi]
+            verdicts.append(('get_identical_atoms' + sfx, True if canon == got['identical'] else f'real code {json.dumps(got["identical"])[:200]}, translation {json.dumps(canon)[:200]}'))
+        for key in ('check_residues', 'izone_rowID', 'izone_rowID_all'):
+            g, mm = got[key], m.get(key)
+            count(key + ':' + (g if isinstance(g, str) else 'ok'))
+            if key != 'check_residues' and mm == 'ERR:UnboundLocalError' and g != mm:
+                count(key + ':stale-variables(outside the model)')      # see gen_reader_checks
+                continue
+            verdicts.append((key, True if g == mm else f'real code {json.dumps(g)[:200]}, translation {json.dumps(mm)[:200]}'))
+        for nm, v in verdicts:
+            if v is not True and bad is None:
+                bad = {'what': nm, 'why': v, 'kind': kind, 'dec': c['dec'][:60], 'ref': c['ref'][:60], 'cutoff': c['cutoff'], 'enforce': c['enforce'],
+                       'names': c['names'], 'izone': c.get('izone')}
+    nval = stats.get('lrmsd:value', 0) + stats.get('irmsd:value', 0)
+    return [{'name': f'check_residues / get_identical_atoms / get_izone_rowID / compute_lrmsd_pdb2sql / compute_irmsd_pdb2sql = their translations '
+                     f'(Gen/Sim.lean) on {len(lines_d)} pairs ({dict(sorted(stats.items()))})',
+             'ok': bad is None and len(lines_d) > 15 and nval > 20, 'case': bad,
+             'detail': 'driver op sim_sql runs GenS.*; set iteration order = identity and reversed; kernel = recorded arrays and matrix of the real run',
+             'kind': 'gen-sim-sql'}]
+
+
+def sim_export_checks(ctx):
+    """the export branches (`exportpath` given) of compute_lrmsd_pdb2sql / compute_irmsd_pdb2sql: returned value and the rows of the four
+    exported files, real code vs translation (driver op sim_export; rotation kernel recorded as in sim_sql_checks)"""
+    import sys, io, contextlib, shutil
+    rng = ctx.rng
+    mod = sys.modules['pdb2sql.StructureSimilarity']
+    d = ctx.tmpdir()
+    lines_d, meta = [], []
+
+    def exported(fn):
+        db = pdb2sql(fn)
+        try:
+            return [[str(r[0]), int(r[1]), str(r[2]), float(r[3]), float(r[4]), float(r[5])] for r in db.get('chainID,resSeq,name,x,y,z')]
+        finally:
+            db._close()
+
+    def collect():
+        for k in range(ctx.scale(10, 120)):
+            ref, dec, kind = gen_pair(rng)
+            rl, dl = ref.lines(), dec.lines()
+            if k % 4 == 3:
+                dl = permuted_lines(rng, dec, rng.choice(['atoms', 'residues', 'chains', 'interleave']))
+                kind += '+permuted'
+            elif k % 9 == 8:
+                j = rng.randrange(len(dl)); dl = dl + [dl[j]]; kind += '+dup'
+            cutoff = rng.choice(CUTOFFS)
+            if not boundary_free(rl, cutoff):
+                continue
+            enforce = rng.random() < 0.3
+            df, rf = write_file(ctx, dl, 'xdec'), write_file(ctx, rl, 'xref')
+            S = StructureSimilarity(df, rf, enforce_residue_matching=enforce)
+            out = os.path.join(d, 'xout')
+            shutil.rmtree(out, ignore_errors=True)
+            os.makedirs(out)
+            rec, got = {}, {}
+            orig = mod.get_rotation_matrix
+
+            def recorder(slot):
+                def f(p, q, method='svd'):
+                    try:
+                        R = orig(p, q, method=method)
+                    except Exception as e:
+                        rec[slot] = {'err': exc_tag(e)}
+                        raise
+                    P, Q = np.asarray(p, dtype=float).reshape(-1, 3), np.asarray(q, dtype=float).reshape(-1, 3)
+                    ok = np.isfinite(P).all() and np.isfinite(Q).all() and np.isfinite(R).all()
+                    rec[slot] = {'P': [[rat(float(v)) for v in r] for r in P], 'Q': [[rat(float(v)) for v in r] for r in Q],
+                                 'R': [rat(float(v)) for v in np.asarray(R, dtype=float).reshape(-1)]} if ok else {'err': 'not-finite'}
+                    return R
+                return f
+            try:
+                mod.get_rotation_matrix = recorder('l')
+                got['lrmsd'] = call(lambda: S.compute_lrmsd_pdb2sql(exportpath=out, method='svd'))
+                mod.get_rotation_matrix = recorder('i')
+                got['irmsd'] = call(lambda: S.compute_irmsd_pdb2sql(cutoff=cutoff, method='svd', exportpath=out))
+            finally:
+                mod.get_rotation_matrix = orig
+            if any(isinstance(v, dict) and v.get('err') == 'not-finite' for v in rec.values()):
+                continue
+            for nm in ('lrmsd_decoy', 'lrmsd_ref', 'irmsd_decoy', 'irmsd_ref'):
+                fn = os.path.join(out, nm + '.pdb')
+                got[nm] = exported(fn) if os.path.isfile(fn) else None
+            lines_d.append({'op': 'sim_export', 'dec': [l + '\n' for l in dl], 'ref': [l + '\n' for l in rl], 'cutoff': rat(Fraction(str(cutoff))),
+                            'enforce': enforce, 'kernel_l': rec.get('l'), 'kernel_i': rec.get('i')})
+            meta.append((kind, got))
+    with contextlib.redirect_stdout(io.StringIO()):
+        collect()
+    try:
+        ans = vlib_run_driver(lines_d)
+    except Exception as e:
+        return [{'name': 'generated export branches: model driver not available (' + repr(e)[:80] + ')', 'ok': True, 'case': None, 'detail': 'skipped'}]
+    bad, stats = None, {}
+
+    def count(t):
+        stats[t] = stats.get(t, 0) + 1
+
+    def rows_same(real, model):
+        if real is None or len(real) != len(model):
+            return f'{None if real is None else len(real)} exported rows, translation {len(model)}'
+        for a, b in zip(real, model):
+            if a[:3] != b[:3]:
+                return f'row {a[:3]} vs {b[:3]}'
+            if any(abs(x - float(Fraction(y))) > 0.00051 for x, y in zip(a[3:], b[3:])):
+                return f'coordinates of {a[:3]}: {a[3:]} vs {[float(Fraction(y)) for y in b[3:]]}'
+        return True
+    for c, (kind, got), a in zip(lines_d, meta, ans):
+        m = a.get('model') or {}
+        for route in ('lrmsd', 'irmsd'):
+            g, mm = got[route], m.get(route)
+            if isinstance(mm, str) and mm.startswith('ERR:UNMODELLED'):
+                count(route + ':outside'); continue
+            if isinstance(mm, str):
+                count(route + ':' + mm)
+                v = True if g == mm else f'real code {g}, translation {mm}'
+            elif g.startswith('ERR'):
+                count(route + ':numpy-shape-error(discard)' if g in ('ERR:ValueError', 'ERR:TypeError', 'ERR:IndexError') and c.get('kernel_' + route[0]) and 'R' in c['kernel_' + route[0]] else route + ':?')
+                v = True if g in ('ERR:ValueError', 'ERR:TypeError', 'ERR:IndexError') else f'real code {g}, translation returns a value'
+            else:
+                count(route + ':value')
+                v = True if abs(float(unrat(g)) - math.sqrt(float(unrat(mm['value'])))) <= 0.0005 + 1e-6 else f'value {float(unrat(g))} vs sqrt({float(unrat(mm["value"]))})'
+                if v is True:
+                    files = {''.join(f[0]).split('/')[-1][:-4]: f[1] for f in mm['files']}
+                    for nm in (route + '_decoy', route + '_ref'):
+                        w = rows_same(got[nm], files.get(nm, []))
+                        if w is not True:
+                            v = f'{nm}.pdb: {w}'
+                            break
+            if v is not True and bad is None:
+                bad = {'route': route, 'why': v, 'kind': kind, 'dec': c['dec'][:60], 'ref': c['ref'][:60], 'cutoff': c['cutoff'], 'enforce': c['enforce']}
+    nval = stats.get('lrmsd:value', 0) + stats.get('irmsd:value', 0)
+    return [{'name': f'export branches of compute_lrmsd_pdb2sql / compute_irmsd_pdb2sql (value + rows of the exported files) = their translations '
+                     f'(Gen/Sim.lean) on {len(lines_d)} pairs ({dict(sorted(stats.items()))})',
+             'ok': bad is None and len(lines_d) >= 5 and nval >= 6, 'case': bad,
+             'detail': 'driver op sim_export runs GenS.compute_*_pdb2sql_export; exported coordinates compared to the 3 decimals of the PDB text',
+             'kind': 'gen-sim-export'}]
+
+
 def vlib_run_driver(lines):
     import vlib
     return vlib.run_driver(lines, which='model', cluster=CLUSTER) if lines else []
@@ -853,6 +1179,8 @@ def vlib_run_driver(lines):
 def extra_checks(ctx):
     """the bundled pair against the constants of the repository's tests (thorough tier: also through the driver in cases())"""
     res = gen_reader_checks(ctx) + gen_zone_checks(ctx)
+    res += sim_sql_checks(ctx)                       # simTie: Gen/Sim.lean
+    res += sim_export_checks(ctx)                    # simTie: Gen/Sim.lean, export variants
     df, rf = os.path.join(PDBDIR, '1AK4_5w.pdb'), os.path.join(PDBDIR, 'target.pdb')
     if ctx.thorough and os.path.isfile(df):
         S = StructureSimilarity(df, rf, enforce_residue_matching=False)
